@@ -7,6 +7,7 @@ import (
 
 func TestC01(t *testing.T) { runProp(t, "C01") }
 func TestC02(t *testing.T) { runProp(t, "C02") }
+func TestC03(t *testing.T) { runProp(t, "C03") }
 
 // TestReplay re-runs one saved case through the property's oracle, bypassing rapid.
 func TestReplay(t *testing.T) {
